@@ -10,7 +10,7 @@
 From Coq Require Import List String ZArith NArith Bool Lia.
 Import ListNotations.
 From DV Require Import Model.Tree Model.Tables Model.Link Model.Restore Model.Clone
-     Proofs.LinkProofs Proofs.LinkChunk Proofs.LinkLocal Proofs.RestoreProofs Proofs.RelocProofs Proofs.EditProofs Proofs.CloneProofs
+     Proofs.LinkProofs Proofs.LinkChunk Proofs.LinkLocal Proofs.LinkOrder Proofs.RestoreProofs Proofs.RelocProofs Proofs.EditProofs Proofs.CloneProofs
      Gen.Universe Gen.CloneTbl Gen.RestTbl.
 Local Open Scope string_scope.
 Local Open Scope list_scope.
@@ -69,6 +69,15 @@ Theorem C02_comment_stays_with_a_neighbour :
   (forall c d ind a, nth_error fs c = Some (FCom d ind a) -> a = None) ->
   forall c d ind j, nth_error (l_frags (link fs)) c = Some (FCom d ind (Some j)) -> adjacent (l_frags (link fs)) c j.
 Proof. exact link_attaches_locally. Qed.
+
+(* ... and in order: of two comments, the later one is never stored at an earlier point.  So the
+   comments between two elements split into a first part that stays with the element before them
+   and a second part that stays with the element after them. *)
+Theorem C02_comments_are_attached_in_order :
+  forall fs,
+  (forall c d ind a, nth_error fs c = Some (FCom d ind a) -> a = None) ->
+  forall c1 c2 j1 j2, (c1 < c2)%nat -> att (link fs) c1 j1 -> att (link fs) c2 j2 -> (j1 <= j2)%nat.
+Proof. exact link_attaches_in_order. Qed.
 
 (* (b) editing --------------------------------------------------------------------------------- *)
 
@@ -144,6 +153,7 @@ Print Assumptions C02_trailing_comment_goes_to_end.
 Print Assumptions C02_leading_comments_go_to_start.
 Print Assumptions C02_separator_becomes_spacing.
 Print Assumptions C02_comment_stays_with_a_neighbour.
+Print Assumptions C02_comments_are_attached_in_order.
 Print Assumptions C02_edit_commutes_with_rendering.
 Print Assumptions C02_segment_depends_on_subtree_only.
 Print Assumptions C02_segment_relocatable.
